@@ -145,6 +145,8 @@ ASYNQ_ATOMS = {
     "dup_nested": ["if p:", "    yg_{n} = yield fetch.asynq({n})", "    yh_{n} = yield fetch.asynq(p)", "    print(yg_{n}, yh_{n})"],
     "dup_ml": ["yi_{n} = yield fetch.asynq(", "    {n}", ")", "yj_{n} = yield fetch.asynq(p)", "print(yi_{n}, yj_{n})"],
     "dup_attr_target": ["holder_{n} = Ctx()", "holder_{n}.a = yield fetch.asynq({n})", "holder_{n}.b = yield fetch.asynq(p)", "print(holder_{n})"],
+    "unpacked_then_yield": ["ua_{n}, ub_{n}, uc_{n} = yield fetch.asynq(1), fetch.asynq(2), fetch.asynq({n})", "ud_{n} = yield fetch.asynq(p)", "print(ua_{n}, ub_{n}, uc_{n}, ud_{n})"],
+    "unpacked_then_yield2": ["(zz_{n}, aa_{n}), mm_{n} = yield (fetch.asynq(1), fetch.asynq(2)), fetch.asynq({n})", "kk_{n} = yield fetch.asynq(p)", "print(zz_{n}, aa_{n}, mm_{n}, kk_{n})"],
     "dup_mixed": ["ym_{n} = yield fetch.asynq({n})", "_ = yield fetch.asynq(p)", "yn_{n} = yield fetch.asynq(ym_{n})", "print(yn_{n})"],
 }
 
@@ -344,7 +346,7 @@ class Gen:
             text = "\n".join(lines)
         else:
             text = "\n".join(lines) + "\n"
-        head = r.below(12)
+        head = r.below(12) if not self.opts.get("plain_text") else 99
         if head == 0 and not first_line_def:
             self.meta["features"].append("encoding_cookie")
             text = "# -*- coding: utf-8 -*-\n" + text
@@ -354,10 +356,10 @@ class Gen:
         elif head == 2:
             self.meta["features"].append("bom")
             text = "\ufeff" + text
-        if r.chance(self.opts.get("p_tabs", 0.1)):
+        if not self.opts.get("plain_text") and r.chance(self.opts.get("p_tabs", 0.1)):
             self.meta["features"].append("tabs")
             text = "\n".join(_tabify(l) for l in text.split("\n"))
-        if r.chance(self.opts.get("p_crlf", 0.08)):
+        if not self.opts.get("plain_text") and r.chance(self.opts.get("p_crlf", 0.08)):
             self.meta["features"].append("crlf")
             text = text.replace("\n", "\r\n")
         return text
